@@ -4,7 +4,7 @@ EXTENDS Params, Json
 Trace == ndJsonDeserialize("trace.ndjson")
 VARIABLE l
 Ev == Trace[l]
-TrLit == Ev.ev = "lit" /\ Ev.v \in Vectors /\ WellFormed(Ev.v) /\ OutcomeOK(Ev.v, Ev.outcome, Ev.sound)
+TrLit == Ev.ev = "lit" /\ Ev.v \in Vectors /\ WellFormed(Ev.v) /\ OutcomeOK(Ev.v, Ev.outcome, Ev.sound) /\ Ev.litok    \* and the literal (the tables its slices are cut from) is left as it was
 TrGen == Ev.ev = "gen" /\ ~Ev.panic /\ GenOK(Ev)
 TrTrip == Ev.ev = "trip" /\ ~Ev.panic /\ ~Ev.err /\ Ev.equal
 TrSec == Ev.ev = "sec" /\ ~Ev.panic /\ ~Ev.err /\ SecOK(Ev)
